@@ -77,6 +77,11 @@ def cases(tier, seed):
             opts["nonlinear_scaling"] = False
         spec = gen.make_spec(rng, D=D, geom=geom, x0mode=x0mode, land=land, mode=mode, cons=cons, options=opts, max_fun_evals=mfe, sigma=sigma)
         out.append({"spec": spec, "fam": fam})
+    # deterministic probes of the two OPEN known findings of this property, so that every run reports them
+    for k, extra in enumerate(({"max_fun_evals": 1}, {"hedge_gamma": 0})):
+        rng = gen.rng_for(seed, "C09", 900000 + k)
+        spec = gen.make_spec(rng, D=2, geom="lin", x0mode="in", land="quad", mode="det", options=dict(extra), max_fun_evals=extra.get("max_fun_evals", 60))
+        out.append({"spec": spec, "fam": "known-finding-probe"})
     return out
 
 
